@@ -404,4 +404,30 @@ for _cid in PROPS:
     if any(_cid in v[1] for v in DEFAULTS.values()):
         PROPS[_cid]['scans'].append(dict(kind='defaults', table=DEFAULTS))
 
+# Dependencies: functions whose contracts a property's proof uses as hypotheses at call sites although the property
+# states nothing about them.  They are verified by the same check with their whole contract (every tag counts),
+# so a change inside one of them is noticed by every property that leans on it (pyvc/cli.py refuses a plan whose
+# call-site hypotheses are not closed under this relation).
+DEPS = {
+    'C02': ['Core.Environment.__init__'],
+    'C06': ['Core.Environment.__init__', 'Core.SystemManager.__init__'],
+    'C07': ['Core.Environment.__init__', 'Core.SystemManager.__init__', 'Core.Agent.has_component',
+            'Core.Environment.get_agents'],
+    'C04': ['Core.SystemManager.register_component', 'Core.SystemManager.deregister_component',
+            'Core.Agent.add_component', 'Core.Agent.remove_component'],
+    'C08': ['Core.Environment.__init__', 'Core.Environment.add_agent', 'Core.Environment.remove_agent',
+            'Core.SystemManager.register_component', 'Core.SystemManager.deregister_component',
+            'Core.Agent.add_component', 'Core.Agent.remove_component', 'Core.Agent.has_component'],
+    'C09': ['Core.Environment.__init__'],
+    'C15': ['Core.Model.execute', 'Core.SystemManager.execute_systems', 'Core.SystemManager.__getitem__',
+            'Batching.ParameterList.build'],
+    'C16': ['Batching.ParameterList.build'],
+    # decode treats registration / joining as lifecycle events (abstract view); that the decoded model then *contains*
+    # the listed systems with their declared scheduling, and the agents, is the contract of these functions
+    'C18': ['Core.System.__init__', 'Core.SystemManager.add_system', 'Core.Environment.add_agent',
+            'Core.SystemManager.register_component'],
+}
+for _cid, _d in DEPS.items():
+    PROPS[_cid]['deps'] = _d
+
 NOT_APPLICABLE = {}
